@@ -144,7 +144,7 @@ fn nonzero_dyadic(g: &mut SplitMix64, lo: i64, hi: i64, den: i64) -> f64 {
 }
 
 /// Random graph on n spins without self-loops. `shape`: 0 frustrated triangle(+extras), 1 multi-edges,
-/// 2 random both signs, 3 ring, 4 all positive (importance-sampling friendly), 5 single negative edge first.
+/// 2 random both signs, 3 ring, 4 all positive, 5 single negative edge first, 6 one coupling magnitude with random signs.
 fn gen_model(g: &mut SplitMix64, n: usize, shape: u64) -> Model {
     let mut edges: Vec<(Edge, f64)> = vec![];
     let pair = |g: &mut SplitMix64| -> (usize, usize) {
@@ -194,6 +194,15 @@ fn gen_model(g: &mut SplitMix64, n: usize, shape: u64) -> Model {
                 if k >= 2 {
                     edges[0].1 = -(g.range(1, k - 1) as f64) / 8.0;
                 }
+            }
+        }
+        6 => {
+            // one coupling magnitude, random signs: many zero-energy worm moves, long worm paths
+            let mag = nonzero_dyadic(g, 0, 2, 8).abs();
+            let m = n as u64 - 1 + g.below(n as u64 + 1);
+            for i in 0..m {
+                let p = if (i as usize) < n - 1 && g.chance(2, 3) { (i as usize, i as usize + 1) } else { pair(g) };
+                edges.push((p, if g.chance(1, 3) { -mag } else { mag }));
             }
         }
         _ => {
@@ -284,7 +293,8 @@ fn mode_traj(a: &Args, g: &mut SplitMix64) {
     for c in 0..ncases {
         let n = 2 + g.below(5) as usize;
         let imp = g.chance(1, 3);
-        let shape = g.below(6);
+        // worm steps (every third case) mostly on one-magnitude graphs, where worms travel
+        let shape = if c as u64 % 3 == 2 && g.chance(2, 3) { 6 } else { g.below(7) };
         let m = gen_model(g, n, shape);
         let beta = match g.below(8) {
             0 => 0.0,
@@ -776,6 +786,12 @@ fn mode_kern_worm(a: &Args, g: &mut SplitMix64) {
         let mut m = small_model(g, n, false);
         if c % 4 < 2 {
             m.biases = vec![0.0; n];
+        }
+        if c % 2 == 0 {
+            // one coupling magnitude: zero-energy worm moves, paths up to the length bound
+            for e in m.edges.iter_mut() {
+                e.1 = if e.1 > 0.0 { 1.0 } else { -1.0 };
+            }
         }
         let zero_bias = m.biases.iter().all(|b| *b == 0.0);
         let beta = g.dyadic(0, 2, 4);
